@@ -24,7 +24,15 @@ type Bounce struct {
 	Tr   *vtrace.Tracer
 	ID   func(addr string) string
 	Fail []BouncePlan // per report (in order of Start calls)
-	n    int
+	// OnCall, if set, is invoked at the beginning of every call (crash gate).
+	OnCall func()
+	n      int
+}
+
+func (b *Bounce) gate() {
+	if b.OnCall != nil {
+		b.OnCall()
+	}
 }
 
 type BouncePlan struct {
@@ -49,6 +57,7 @@ func (b *Bounce) id(a string) string {
 }
 
 func (b *Bounce) Start(ctx context.Context, msgMeta *module.MsgMetadata, mailFrom string) (module.Delivery, error) {
+	b.gate()
 	b.n++
 	var plan BouncePlan
 	if b.n-1 < len(b.Fail) {
@@ -63,6 +72,7 @@ func (b *Bounce) Start(ctx context.Context, msgMeta *module.MsgMetadata, mailFro
 }
 
 func (d *bounceDelivery) AddRcpt(ctx context.Context, rcptTo string, _ smtp.RcptOptions) error {
+	d.b.gate()
 	res := orOK(d.plan.Rcpt)
 	d.b.Tr.Emit("DAddRcpt", vtrace.Ev{"n": d.n, "to": rcptTo, "res": res})
 	if err := ErrFor(res, "bounce AddRcpt"); err != nil {
@@ -144,6 +154,7 @@ func ParseReport(hdr mtextproto.Header, body []byte, id func(string) string) vtr
 }
 
 func (d *bounceDelivery) Body(ctx context.Context, header mtextproto.Header, body buffer.Buffer) error {
+	d.b.gate()
 	res := orOK(d.plan.Body)
 	r, err := body.Open()
 	var blob []byte
@@ -164,6 +175,7 @@ func (d *bounceDelivery) Body(ctx context.Context, header mtextproto.Header, bod
 }
 
 func (d *bounceDelivery) Commit(ctx context.Context) error {
+	d.b.gate()
 	res := orOK(d.plan.Commit)
 	if d.closed {
 		d.b.Tr.Emit("DMisuse", vtrace.Ev{"n": d.n, "op": "Commit"})
@@ -182,6 +194,7 @@ func (d *bounceDelivery) Commit(ctx context.Context) error {
 }
 
 func (d *bounceDelivery) Abort(ctx context.Context) error {
+	d.b.gate()
 	if d.closed {
 		d.b.Tr.Emit("DMisuse", vtrace.Ev{"n": d.n, "op": "Abort"})
 	}
